@@ -118,6 +118,11 @@ pub trait World: Sized {
     fn fire(&mut self, code: u32) -> impl Future<Output = ()>;
     /// Oracles and digest at the end of the execution.
     fn finish(self) -> Outcome;
+    /// Seed of the runtime's random number generator (start branch of unbiased `select!`s); a
+    /// configuration dimension, fixed within one execution.
+    fn rng_seed(_cfg: &Self::Cfg) -> u64 {
+        0
+    }
 }
 
 #[derive(Clone, Debug, Default)]
@@ -135,7 +140,7 @@ fn run_in_runtime<W: World>(cfg: &W::Cfg, prefix: &[u8], trace: bool) -> Result<
     let rt = tokio::runtime::Builder::new_current_thread()
         .enable_time()
         .start_paused(true)
-        .rng_seed(tokio::runtime::RngSeed::from_bytes(b"swimos-verif"))
+        .rng_seed(tokio::runtime::RngSeed::from_bytes(format!("swimos-verif{}", match W::rng_seed(cfg) { 0 => String::new(), n => format!("-{}", n) }).as_bytes()))
         .build()
         .map_err(|e| format!("runtime: {}", e))?;
     rt.block_on(async {
